@@ -67,9 +67,12 @@ func init() {
 	fw.Families["C12"] = func(k *fw.Case) { trace.RunCase(k, c12) }
 
 	c13 := &trace.Config{
-		Methods:  []string{trace.MDAG},
-		Clauses:  trace.Clauses(trace.ClDag, trace.ClBarrier, trace.ClOnce, trace.ClError, trace.ClLate),
-		Gen:      trace.GenOpts{MinRules: 1, MaxRules: 9, FailProb: 0.15, RetProb: 0.3},
+		Methods: []string{trace.MDAG},
+		Clauses: trace.Clauses(trace.ClDag, trace.ClBarrier, trace.ClOnce, trace.ClError, trace.ClLate),
+		Gen: trace.GenOpts{MinRules: 1, MaxRules: 9, FailProb: 0.15, RetProb: 0.3,
+			// incl. a rule that fails on its first execution of a call only: named twice in a layer, one occurrence
+			// fails and the other succeeds
+			FailKinds: []int{trace.FailDivZero, trace.FailAddString, trace.FailMissingVar, trace.FailCmpType, trace.FailPanicFn, trace.FailMissingFn, trace.FailIndexCond, trace.FailNonBool, trace.FailPanicBig, trace.FailFirstOnly, trace.FailFirstOnly, trace.FailFirstOnly}},
 		Calls:    6,
 		PoolProb: 0.35,
 		Holds:    true,
